@@ -131,7 +131,9 @@ def c04(ctx, v):
         B.r_units(ctx, v)
         B.r_bounds(ctx, v)
     # R-BOUNDS discharges `pos_back - pos` by the iterator invariant pos <= pos_back: that invariant is R-CURSOR's
+    # (raw-pointer iterators) / R-SELFMADE's (hand-written safe cursor iterators, none on the reviewed tree)
     I.r_cursor(ctx, v)
+    I.r_selfmade(ctx, v)
 
 
 def c05(ctx, v):
@@ -215,7 +217,9 @@ def c13(ctx, v):
 
 
 def c14(ctx, v):
+    fixture_once(ctx, ["R-CAPFWD"])
     D.r_eqfoot(ctx, v)
+    D.r_capinvisible(ctx, v)   # a clone does not keep the capacity: nothing may depend on it
 
 
 def c15(ctx, v):
@@ -333,7 +337,9 @@ PROPS = {
             "trusted": [TRUST_RUSTC, "indexmap iterators are exact, fused and double-ended-consistent"], "assumptions": []},
     "C14": {"rules": [c14], "explanation":
             "R-EQFOOT: Store::eq is exactly IndexMap's equality of the two `map` fields (footprint {map}), both queue eq impls delegate to it and "
-            "define no `ne`; Clone for Store and both queues is derived or field-complete (incl. clone_from); every field type owns its data.",
+            "define no `ne`; Clone for Store and both queues is derived or field-complete (incl. clone_from); every field type owns its data; "
+            "capacity-invisibility (no capacity() result reaches a branch or an argument: a clone, which does not keep the capacity, "
+            "cannot behave differently from its source).",
             "trusted": [TRUST_RUSTC, "indexmap PartialEq is set equality of (key,value) pairs"], "assumptions": []},
     "C15": {"rules": [c15], "explanation":
             "serde configuration: R-SERDE (writer and reader use a sequence of (item, priority) pairs of the same arity and order; both queue kinds "
